@@ -98,6 +98,26 @@ SUMMARY = {
     "C18-5": ("`cleanup.fits=NULL` moved after the checked close in `write_fits`", "a write whose final close fails: the guard closes the released handle again", "missed at first; ED-2 guard-disarmed-before-the-close added, ED writer rules run under C18"),
     "C19-5": ("`countAuxKeywords(fits)` folded into its use after the KNOTS loop", "file with 20 or more long auxiliary keys", "caught (SM-4)"),
     "C20-5": ("`remove_key` compacts the entries in place and decrements `naux`", "any later release of the key array, seen by a size-checking allocator", "missed at first; TS-8 (naux changes only with a newly allocated array) added"),
+    "C01-6": ("the two independent margin tests of `bsplvb_simple` folded into `if {...} else if {...}`", "axis with exactly 2*order+2 knots (order >= 1) and a point in its upper margin", "caught (KB-2b)"),
+    "C02-6": ("degree-0 indicator of the reference `bspline()` rewritten early-out style, upper bound `>=` lost its `=` (closed interval)", "derivative order >= 2 at a coordinate exactly on an interior knot", "missed at first under C02 (caught under C09/C17: GE-3 clone); CL-9 (half-open indicator, by path facts) added"),
+    "C03-6": ("same edit as C02-5 (independent agent): evaluator's gradient scratch arrays declared `float`", "`get_evaluator<double>()` + gradient, bitwise comparison of paths", "caught (CL-2)"),
+    "C04-6": ("`int centers[ndim]` in the call operator made `int centers[PHOTOSPLINE_MAXDIM]`", "a table of more than 8 dimensions through `operator()`: lookup writes past the scratch array", "missed at first; KB-8 extended to arrays handed to a callee that indexes its parameter up to ndim, and run under C04"),
+    "C05-6": ("`assert(knots[left] <= x && x < knots[left+1])` added to `bsplvb`", "assertions enabled and a coordinate exactly on the upper extent, a knot of the upper margin or the last knot, through a gradient or derivative entry point", "missed at first; AS-1 (every assertion on the evaluation path is of a discharged kind) added"),
+    "C06-6": ("reader strips trailing blanks from string values of exactly 8 characters", "auxiliary string value of at most 8 characters ending in a blank", "caught (KM-3)"),
+    "C07-6": ("64-bit casts removed from the knots-vs-order guard that precedes the padded allocation", "ORDERn edited to 2^31 or more: wild write in `fits_read_pix`", "caught (VG-2c)"),
+    "C08-6": ("`write_fits` writes to `path.part` and moves it with `rename()`, result ignored", "the final rename fails (target is a directory, EIO): success reported, an older table still loads from the path", "missed at first; ED-6 (no dropped result of a C library file operation on the write path) added"),
+    "C09-6": ("denominator of `divided_diffs` written with a local `span`: the knot window starts at j instead of j+porder", "non-zero smoothing, irregular knots, penalty order >= 1", "missed at first; GW-6 (de Boor's recurrence for the derivative stencil, index polynomials) added"),
+    "C10-6": ("block factor converted with `to_ll = L_F->is_ll` instead of `false` in `recompute_factor`", "free block large and dense enough for a supernodal LL' factorisation, then a single-coefficient change", "missed at first; SP-3 (factor form constants) added"),
+    "C11-6": ("shift loops of the pending sets replaced by `memmove(..., count*sizeof(int))` on `long` arrays", "a clipped coefficient released in the same outer iteration with two or more pending changes behind it", "missed at first; MM-1 (sizeof in a byte count has the destination's element size) added"),
+    "C12-6": ("coordinator signals once per dispatched step (`pthread_cond_signal`) instead of one broadcast", "a block with fewer steps than parked workers and the dispatched worker not at the head of the wait queue", "caught (MT-3)"),
+    "C13-6": ("order-count check `!= ndim` relaxed to `< ndim`", "more spline orders than dimensions: `std::copy` writes past the `order` block", "caught (VG-1)"),
+    "C14-6": ("`factorial` rewritten as the recursion `n > 1 ? n*factorial(n-1) : n`", "convolution along a dimension of order 0 (factorial(0) = 0)", "caught (UW-1)"),
+    "C15-6": ("early return moved before the validation and widened to `ndim < 2`", "1-d table and an out-of-range single index", "caught (ZD-1)"),
+    "C16-6": ("reader collapses every run of adjacent quotes to one", "value with two or more adjacent single quotes", "caught (KM-3)"),
+    "C17-6": ("`cholmod_l_drop(DBL_EPSILON, ...)` added after the product in `slicemultiply`", "coefficients of absolute scale below ~1e-15", "missed at first; GE-5 (no absolute threshold in grid evaluation) added"),
+    "C18-6": ("penalty-order check moved from the sanity block into the penalty loop, after `cholmod_l_start`", "a fit with penaltyOrder > splineOrder under a leak checker: workspace and penalty matrix leaked", "missed at first under C18 (caught under C09/C13); RH-2 (nothing raised while the CHOLMOD workspace is held) added"),
+    "C19-6": ("per-card `error = 0` removed from `countAuxKeywords`", "file from a foreign writer with an unparsable card in front of 20+ auxiliary keys", "missed at first under C19 (FS-4 ran under C06/C16 and did not look at the reset); FS-4 extended (status reset before each card read) and run under C19"),
+    "C20-6": ("move assignment implemented as member-wise swap", "assignment into a populated table, then the source inspected or reused", "caught (TS-4)"),
     "C20-2": ("`extents[0] = nullptr` removed from the reader", "allocation failure at the 7th request with a non-zero-filling allocator", "caught"),
 }
 try:
